@@ -17,7 +17,7 @@ FORBIDDEN = re.compile(r'\b(Admitted|admit|Axiom|Axioms|Parameter|Parameters|Con
 ALLOWED_ASSUMPTION = re.compile(r'^(PrimFloat\.|Uint63\.|PrimInt63\.|FloatOps\.|SpecFloat\.|float\b|int\b|Coq\.(Floats|Numbers\.Cyclic\.Int63)\.)')
 
 
-_PRIM_TYPE_TOKENS = re.compile(r'PrimInt63\.int|PrimFloat\.float|float_class|float|comparison|int|bool|Set|->|\*|\(|\)|\s')
+_PRIM_TYPE_TOKENS = re.compile(r'PrimInt63\.int|PrimFloat\.float|float_class|float_comparison|float|comparison|int|bool|Set|->|\*|\(|\)|\s')
 
 
 def is_kernel_primitive(name, ty):
